@@ -108,6 +108,8 @@ let () = Reg.register "c13.expand" (fun inp out ->
     | [A "ok"; nts; _] ->
       (* the side conditions of the Coq theorem C13_expand_correct, evaluated on this model *)
       if not (Expand.expand_checks m) then "bad:side-conditions-of-the-correctness-theorem-do-not-hold"
+      (* the static hypothesis of C13_expand_correct_wf (implies expand_checks for every model) *)
+      else if not (ExpandWf.wf_model m) then "bad:static-well-formedness-wf_model-does-not-hold"
       else language_verdict m (get_nonterms nts)
     | _ -> "bad:unparsable" in
   (model, verdict))
